@@ -17,6 +17,7 @@ RULE = ('Finite doubles: Hypothesis floats, uniform random 64-bit patterns, ever
         'integral |x| < 1e16 print as -?digits, no text ends in a zero fraction. Parser strings: generated valid decimals (must equal '
         'float(text)), numeric near-misses (must be null) and arbitrary text (null or a finite number, never an exception). '
         'Non-trivial: x is non-integral, >= 1e16 or < 1e-4 in magnitude (exponent forms), or the string is a near-miss; distinct by value/text.')
+RULE += ' Also: integral numbers as the library hands them to a script (mathFloor, mathCeil, numberParseInt, jsonParse, mathAbs, mathMax), magnitudes up to 1e308.'
 ASSUMPTIONS = [
     'CPython float repr is the shortest round-trip representation (trusted)',
     'Python-specific leniencies of float()/int() (underscores, non-ASCII digits, surrounding white space) are not asserted either way',
